@@ -601,13 +601,19 @@ def engine_fails(case: dict, graph_w: list, roles) -> bool:
     return engine_spec(case["resolver"], own, p[2], p[0], tuple(case["template"]), a["naive"], a.get("impl_ok")) is not None
 
 
-def shrink_graph_roles(graph_w: list, roles, fails) -> tuple[list, object]:
-    """drop graph entries, then single parents, then roles, while the failure persists"""
+def shrink_graph_roles(graph_w: list, roles, fails0) -> tuple[list, object]:
+    """drop graph entries, then single parents, then roles, while the failure persists (best effort, at most ~45 s)"""
+    import time as _time
+    t_end = _time.time() + 45
+
+    def fails(g, r):
+        return _time.time() < t_end and fails0(g, r)
     g = lib.shrink_list(graph_w, lambda xs: fails(xs, roles), budget=60)
-    for i in range(len(g)):
-        k, ps = g[i]
-        ps2 = lib.shrink_list(ps, lambda q, i=i, k=k: fails(g[:i] + [[k, q]] + g[i + 1:], roles), budget=30)
-        g = g[:i] + [[k, ps2]] + g[i + 1:]
+    if len(g) <= 40:
+        for i in range(len(g)):
+            k, ps = g[i]
+            ps2 = lib.shrink_list(ps, lambda q, i=i, k=k: fails(g[:i] + [[k, q]] + g[i + 1:], roles), budget=30)
+            g = g[:i] + [[k, ps2]] + g[i + 1:]
     if isinstance(roles, list):
         roles = lib.shrink_list(roles, lambda rs: fails(g, rs), budget=30)
     return g, roles
